@@ -275,7 +275,7 @@ def diff_run(ctx, entries=None, report=None):
     Keys name the root-cause site: entry x (form | form group x length class) x outcome kind."""
     report = report or ctx.fail
     ents = entries or table()
-    nrand = ctx.n(2, 12)
+    nrand = ctx.n(6, 60)
     for e in ents:
         valsets = [('int', INT_VALS), ('float', FLT_VALS)]
         for k in range(nrand):
@@ -446,7 +446,7 @@ def close(o1, o2, tol):
 def unit_order_run(ctx, report=None):
     report = report or ctx.fail
     rng = ctx.rng
-    N = ctx.n(12, 200)
+    N = ctx.n(20, 400)
     specials = [0.0, 90.0, -90.0, 180.0, 45.0, 30.0, 360.0, -720.0, 1e-9, 57.29577951308232]
     # ---- input angles: f(a, 'deg') == f(a*pi/180, 'rad'); unknown unit raises
     for name, f, ar in angle_in_entries():
@@ -493,7 +493,8 @@ def unit_order_run(ctx, report=None):
                 ctx.count('units:out:nan-in-both (a C03 matter: trlog)')     # NaN angle in BOTH units: not a unit question
                 continue
             err = float('inf') if bad else float(np.max(np.abs(vd - vr * 180 / math.pi))) if vd.size else 0.0
-            ctx.stats['units:out:worst'] = max(ctx.stats.get('units:out:worst', 0.0), err if math.isfinite(err) else 1e300)
+            if not bad and err <= 1e-12:
+                ctx.stats['units:out:worst-accepted'] = max(ctx.stats.get('units:out:worst-accepted', 0.0), err)
             if bad or not err <= 1e-12:
                 report(f"unit:out:{name}:{'raises' if od[0] == 'raise' else 'differs'}",
                        f"{name}: the angle returned with unit='deg' ({show(od)[:160]}) is not 180/pi times the one returned with unit='rad' ({show(orad)[:160]})",
